@@ -79,7 +79,8 @@ def build(c):
             elif s["k"] == "blockshadow":
                 body.append("{ if (%s) { var %s = %d; rec(%s) }; rec(%s) }" % (cond, n, v, n, n))
             elif s["k"] == "exprdecl":
-                body.append("rec(%s ? (var %s_e%d = %d) : 0)" % (cond, n, v, v))
+                # a declaration in call-argument position, as the only declaration of its block
+                body.append("if (%s) { rec(var %s = %d); rec(%s) }" % (cond, n, v, n))
             elif s["k"] == "assign":
                 body.append("%s = %s + 1" % (n, n))
             else:
